@@ -997,3 +997,24 @@ Definition pathmax_size (pathconf_answer : Z) : Z :=
 (* the string left in req->ptr for a link whose target is [target] *)
 Definition fs_readlink_ptr {A} (pathconf_answer : Z) (target : list A) : list A :=
   firstn (Z.to_nat (pathmax_size pathconf_answer)) target.
+
+(* ================================================================== *)
+(* Part G: the entry filter of uv_fs_scandir                           *)
+(* ================================================================== *)
+(* uv__fs_scandir_filter (fs.c:564-566):
+     strcmp(dent->d_name, ".") != 0 && strcmp(dent->d_name, "..") != 0 *)
+Fixpoint str_eqb (a b : list N) : bool :=
+  match a, b with
+  | [], [] => true
+  | x :: a', y :: b' => (x =? y)%N && str_eqb a' b'
+  | _, _ => false
+  end.
+
+Definition DOT : list N := [46%N].
+Definition DOTDOT : list N := [46%N; 46%N].
+
+Definition scandir_keeps (name : list N) : bool :=
+  negb (str_eqb name DOT) && negb (str_eqb name DOTDOT).
+
+(* what uv_fs_scandir reports of the entries readdir(3) delivers (before sorting) *)
+Definition scandir_entries (l : list (list N)) : list (list N) := filter scandir_keeps l.
